@@ -36,6 +36,23 @@ def classify_fragment(repo, fn, expr, at, depth=4):
         return a if a.startswith("raw") else b
     if isinstance(expr, ast.Call) and repo.dotted(fn, expr.func) == "json.dumps":
         return "json"
+    if isinstance(expr, ast.Call) and isinstance(expr.func, ast.Name) and not comprehension_binding(fn, expr.func.id, expr):
+        # a local serialiser: dumps = functools.partial(json.dumps, ...) / json.JSONEncoder(...).encode / json.dumps
+        ds = defs_reaching(fn, expr.func.id, at)
+
+        def _serialiser(v):
+            if v is None:
+                return False
+            if repo.dotted(fn, v) == "json.dumps":
+                return True
+            if isinstance(v, ast.Call) and repo.dotted(fn, v.func) == "functools.partial" and v.args and repo.dotted(fn, v.args[0]) == "json.dumps":
+                return True
+            if isinstance(v, ast.Attribute) and v.attr == "encode" and isinstance(v.value, ast.Call) \
+                    and repo.dotted(fn, v.value.func) == "json.JSONEncoder":
+                return True
+            return False
+        if ds and all(d.kind == "assign" and _serialiser(d.value) for d in ds):
+            return "json"
     if isinstance(expr, ast.BinOp) and isinstance(expr.op, ast.Mult):
         sides = [expr.left, expr.right]
         if any(isinstance(s, ast.Constant) and isinstance(s.value, str) and s.value.strip() == "" for s in sides) or \
